@@ -4,6 +4,7 @@ From mathcomp Require Import all_ssreflect all_algebra all_field.
 From mathcomp Require Import polyorder.
 From MPSV Require Import Roots.NewtonDisc Roots.Isolate Roots.TransformSound.
 From MPSV Require Import Radius.RadiusModel Radius.NewtonRadius Radius.Gerschgorin Radius.SecularRadius.
+From MPSV Require Import Radius.NewtonCoded Radius.NewtonCodedProofs.
 Set Implicit Arguments. Unset Strict Implicit. Unset Printing Implicit Defensive.
 Import Order.TTheory GRing.Theory Num.Theory.
 Local Open Scope ring_scope.
@@ -108,6 +109,62 @@ Theorem C04_components_partial (C : numClosedFieldType) (p : {poly C}) (ds : seq
 Proof. exact: newton_isolated_components. Qed.
 Print Assumptions C04_components_partial.
 
+(* ================= the Newton primitives AS CODED, rounding included =================
+   Radius/NewtonCoded.v transcribes mps_fnewton / mps_dnewton / mps_mnewton (monomial/newton.c) branch by branch
+   over a record of operations `arith K R D`; the SAME definitions are run bit for bit against the library with
+   Flocq binary64 / the DPE model (Radius/NewtonExec.v, bin/newtonfl) on every run of the check.  Here K = R = D = C
+   and the operations are ANY functions obeying the standard model of rounding std_round A um ua uh ur epsv:
+     |cmul a b - ab| <= um |ab|, |cadd a b - (a+b)| <= ua |a+b|, (1-uh)|a| <= cmod a <= (1+uh)|a|,
+     every real operation on non-negative operands within relative ur, int -> double conversions and comparisons
+     exact, deps = epsv (DBL_EPSILON).
+   Notation: Sabs cs z = sum |a_i||z|^i; gam n = ((1+um)(1+ua))^n - 1; kap n = (1-uh) ((1-ur)^2 (1-uh))^n;
+   e_f n = (1-ur)^2 4 n epsv kap n; rho4 = (1-ur)^4;
+   COND rho e gamma eta := (1+uh) gamma <= rho (1-eta) e /\
+                           ((1+uh) - rho (1-eta)(1-uh)) (1+gamma) + (1+uh) gamma <= rho (1-eta) e
+   (first order: n (um+ua) + 2 uh + 4 ur + eta <= 4 n epsv; for binary64, um = 9/4 u, ua = ur = u, uh = 4u, epsv = 2u,
+   eta = 0 this reads 3.25 n + 12 <= 8 n: the constant 4 of `eps = 4 n DBL_EPSILON' covers n >= 3; the exact
+   rational evaluation for each n is done by the check, not in Coq). *)
+
+(* value computed by the Horner loop: |p^ - p(z)| <= ((1+um)^n (1+ua)^n - 1) sum |a_i||z|^i, any list, any point *)
+Theorem C04_coded_horner_error (C : numClosedFieldType) (A : arith C C C) (um ua uh ur epsv : C)
+    (n : nat) (cs : seq C) (z : C) :
+  std_round A um ua uh ur epsv -> size cs = n.+1 ->
+  `|(horner2 A z (List.rev cs)).1 - (Poly cs).[z]| <= gam um ua n * Sabs cs z.
+Proof. by move=> SR sz; have [H _] := horner2_value_error SR z sz. Qed.
+Print Assumptions C04_coded_horner_error.
+
+(* the running bound: ap >= kap(n) sum |a_i||z|^i when the table of moduli and the modulus of z are accurate to uh *)
+Theorem C04_coded_ap_lower (C : numClosedFieldType) (A : arith C C C) (um ua uh ur epsv : C)
+    (n : nat) (cs ms : seq C) (z az : C) :
+  std_round A um ua uh ur epsv -> size cs = n.+1 -> ms_ok uh cs ms -> (1 - uh) * `|z| <= az ->
+  kap uh ur n * Sabs cs z <= o_ap (fnewton_le1 A n cs ms z az).
+Proof. by move=> SR; apply: (fnewton_le1_ap_lower SR). Qed.
+Print Assumptions C04_coded_ap_lower.
+
+(* the error term of the code, E = eps * ap with eps = 4 n DBL_EPSILON (all rounded), dominates the evaluation error *)
+Theorem C04_coded_error_term_dominates (C : numClosedFieldType) (A : arith C C C) (um ua uh ur epsv : C)
+    (n : nat) (cs ms : seq C) (z az : C) :
+  std_round A um ua uh ur epsv -> size cs = n.+1 -> ms_ok uh cs ms -> (1 - uh) * `|z| <= az ->
+  gam um ua n <= e_f uh ur epsv n ->
+  let o := fnewton_le1 A n cs ms z az in
+  `|o_p o - (Poly cs).[z]| <= rmuld A (o_ap o) (feps A n).
+Proof. by move=> SR; apply: (fnewton_le1_error_term SR). Qed.
+Print Assumptions C04_coded_error_term_dominates.
+
+(* mps_fnewton, branch |z| <= 1: the radius AS CODED, n (absp + eps ap) / |p1^| + DBL_MIN with every operation
+   rounded, gives a disc that contains a root.  PARTIAL in one respect: the relative error eta of the computed
+   derivative p1^ is a hypothesis (it is unbounded near critical points; see C04_newton_critical_refuted). *)
+Theorem C04_fnewton_coded_sound_partial (C : numClosedFieldType) (A : arith C C C) (um ua uh ur epsv : C)
+    (n : nat) (cs ms : seq C) (z eta : C) :
+  std_round A um ua uh ur epsv -> size cs = n.+1 -> ms_ok uh cs ms -> last 0 cs != 0 ->
+  rle1 A (cmod A z) = true ->
+  let o := fnewton A n cs ms z in
+  o_p1 o != 0 -> `|o_p1 o - (Poly cs)^`().[z]| <= eta * `|o_p1 o| -> 0 <= eta -> eta < 1 ->
+  COND uh (rho4 ur) (e_f uh ur epsv n) (gam um ua n) eta ->
+  exists2 w, root (Poly cs) w & `|z - w| <= o_rad o.
+Proof. by move=> SR; apply: (fnewton_sound SR). Qed.
+Print Assumptions C04_fnewton_coded_sound_partial.
+
 (* ---------------- non-vacuity ---------------- *)
 Section Examples.
 Let C := algC.
@@ -142,4 +199,27 @@ Qed.
 Example C04_ex_secular (x : C) : root (secD [:: (2%:R, 0); (1, 5%:R)] - secN [:: (2%:R, 0); (1, 5%:R)]) x ->
   exists2 p, p \in [:: (2%:R, 0); (1, 5%:R : C)] & `|x - p.2| <= 2%:R * `|p.1|.
 Proof. exact: C04_secular_radii_sound. Qed.
+
+(* the standard model is satisfiable (exact operations: um = ua = uh = ur = 0), COND then holds for every degree,
+   and the coded mps_fnewton at z = 0 for p = 2x - 1 (moduli table [1; 2]) returns a disc that holds the root 1/2:
+   all hypotheses of C04_fnewton_coded_sound_partial are met by a concrete state *)
+Example C04_ex_std_round (e : C) : 0 <= e -> std_round (exactA e) 0 0 0 0 e.
+Proof. exact: exact_std_round. Qed.
+Example C04_ex_coded (e : C) : 0 <= e ->
+  exists2 w, root (Poly [:: -1; 2%:R : C]) w & `|0 - w| <= o_rad (fnewton (exactA e) 1 [:: -1; 2%:R] [:: 1; 2%:R] 0).
+Proof.
+move=> e0.
+have two0 : (2%:R : C) != 0 by rewrite pnatr_eq0.
+have H := @C04_fnewton_coded_sound_partial _ (exactA e) 0 0 0 0 e 1 [:: -1; 2%:R] [:: 1; 2%:R] 0 0 (exact_std_round e0).
+apply: H => //.
+- by split=> //=; rewrite subr0 !mul1r normrN1 normr_nat !lexx.
+- by rewrite /= normr0 ler01.
+- by rewrite /fnewton /= normr0 ler01 /=.
+- rewrite /fnewton /= normr0 ler01 /= mul0r.
+  have -> : (Poly [:: -1; 2%:R : C])^`() = 2%:R%:P.
+    by rewrite /= !cons_poly_def mul0r add0r derivMXaddC derivC mul0r addr0.
+  by rewrite hornerC subrr normr0.
+- exact: ltr01.
+- exact: (exact_COND 1 e0).
+Qed.
 End Examples.
